@@ -887,6 +887,23 @@ fn gen_dir(r: &mut Rng, st: &mut Out) -> Option<GenDir> {
 	cfg.extended_targets = false;
 	let mut g0 = gen_mappings(r, &cfg);
 	scrub(&mut g0);
+	// a family of outer classes whose nested classes share their simple target name, nested three deep: the extension at the end
+	// of `apply_diffs` must take every prefix from the class's own outer chain (in any insertion order of the classes)
+	if r.chance(1, 4) {
+		let mut fam: Vec<GClass> = Vec::new();
+		let same = !r.chance(1, 4);
+		for o in 0..r.range(2, 3) {
+			let osrc = format!("fam/O{o}");
+			let msrc = format!("{osrc}$M");
+			let dsrc = format!("{msrc}$D");
+			for (src, dst) in [(osrc, format!("famt/T{o}")), (msrc, if same { "Builder".to_owned() } else { format!("Builder{o}") }), (dsrc, "Data".to_owned())] {
+				fam.push(GClass { names: vec![Some(src), Some(dst)], doc: None, fields: Vec::new(), methods: Vec::new() });
+			}
+		}
+		r.shuffle(&mut fam);
+		for c in fam { if !g0.classes.iter().any(|x| x.names[0] == c.names[0]) { g0.classes.push(c); } }
+		st.stats.hit("root:nested-family-with-shared-simple-names");
+	}
 	g0.ns = match r.below(14) { 0 => vec!["intermediary".into(), "yarn".into()], 1 => vec!["official".into(), "named".into()], _ => vec!["intermediary".into(), "named".into()] };
 
 	// ---- node names
